@@ -8,3 +8,16 @@ shape("dd_reader", "src/core_codemods/defectdojo/results.py", ["C12", "C06"],
       "dd_reader_shape", "dd_shape", "DDAsPinned",
       ["DefectDojoLocation.from_result", "DefectDojoResult.from_result", "DefectDojoResultSet.from_json"],
       doc="DefectDojoResultSet.from_json / DefectDojoResult.from_result")
+
+shape("sarif_detect", "src/codemodder/sarifs.py", ["C12", "C20"],
+      "sarif_detect_shape", "sarif_detect_form", "PerRunTry",
+      ["detect_sarif_tools"],
+      doc="detect_sarif_tools: per file, per detector, per run; KeyError/AttributeError/ValueError skip the run; duplicate tool raises")
+shape("sarif_detector_semgrep", "src/codemodder/semgrep.py", ["C12"],
+      "sarif_detector_semgrep_shape", "sarif_detector_form", "NameContainsSemgrepLower",
+      ["SemgrepSarifToolDetector.detect", "SemgrepLocation.from_sarif", "SemgrepResult.from_sarif", "SemgrepResultSet.from_sarif"],
+      doc="SemgrepSarifToolDetector.detect ('semgrep' in driver name, lower-cased) and the Semgrep SARIF reader")
+shape("sarif_detector_codeql", "src/codemodder/codeql.py", ["C12"],
+      "sarif_detector_codeql_shape", "sarif_detector_form", "NameContainsCodeQL",
+      ["CodeQLSarifToolDetector.detect", "CodeQLLocation.from_sarif", "CodeQLResult.from_sarif", "CodeQLResultSet.from_sarif"],
+      doc="CodeQLSarifToolDetector.detect ('CodeQL' in driver name) and the CodeQL SARIF reader (only CodeQL runs are read)")
